@@ -248,7 +248,7 @@ def run(run):
     run.floor("C19.X3", "options_stored", len(consumed), 7)
     # ---------------- X4 truthful exit
     exits = []
-    for p in [q for q in prog.bodies if q.startswith("svgbob_cli::")]:
+    for p in [q for q in prog.bodies if prog.bodies[q].get("crate") == "svgbob_cli"]:
         for bid, t in prog.calls(p):
             if Program.callee_name(t) == "std::process::exit":
                 exits.append((p, bid, t))
@@ -281,7 +281,7 @@ def run(run):
                     "%s is not control-dependent on exactly the matching outcome (guards: %s)" % (inst, [(expr_str(c)[:60], tk) for c, tk, sw in gs] or "unconditional"))
     # after the batch subcommand every path exits: the call to build post-dominates nothing else.. the Ok arm must reach exit(0)
     # ---------------- X5 no dropped Result
-    for p in [q for q in prog.bodies if q.startswith("svgbob_cli::") and "{closure" not in q]:
+    for p in [q for q in prog.bodies if prog.bodies[q].get("crate") == "svgbob_cli" and "{closure" not in q]:
         pb = prog.bodies[p]
         cfg = prog.cfg(p)
         pex = Expr(prog, p)
@@ -374,7 +374,7 @@ def x7(run, fn):
     b = prog.bodies[fn]
     cfg = prog.cfg(fn)
     ex = Expr(prog, fn, opaque=r"get_matches$")
-    cli = [q for q in prog.bodies if q.startswith("svgbob_cli::")]
+    cli = [q for q in prog.bodies if prog.bodies[q].get("crate") == "svgbob_cli"]
 
     def nonzero_exit(t):
         if t["k"] == "call" and Program.callee_name(t) == "std::process::exit":
